@@ -65,7 +65,8 @@ MkDecl(s) ==
                                   ELSE Method(s.meth, N, s.M, s.intg, GridOf(s.grid, N)),
                        !.cons = Tup([i \in 1..Len(s.cons) |-> ConOf(s.cons[i])]),
                        !.obj = Tup([i \in 1..Len(s.obj) |-> ObjOf(s.obj[i])]),
-                       !.quads = IF \E i \in 1..Len(s.obj) : s.obj[i] = "o6" THEN <<Q1>> ELSE <<>>,
+                       !.quads = IF \E i \in 1..Len(s.obj) : s.obj[i] = "o6"
+                                 THEN (IF s.rhs = "RA" THEN <<Plus(Times(P(1), X(1)), Times(P(2), Tm))>> ELSE <<Q1>>) ELSE <<>>,
                        !.reads = IF s.meth = "DC"
                                  THEN <<Read("C02.s", "sample", X(1), "control"), Read("C02.s", "sample", X(1), "integrator"),
                                         Read("C02.s", "sample", X(1), "roots"), Read("C06.e", "sample", Tm, "roots")>>
@@ -149,6 +150,7 @@ ReadsC07(s) ==
      \* integrator grid with refine (explicit schemes and exact collocation schemes have a dense output)
      \o (IF s.rhs \in {"R4", "RA"} THEN <<RRead("C07.a", Plus(Times(P(1), X(1)), U(1)), 2), RRead("C07.a", P(Len(Rhs(s.rhs, s.N).params)), 3)>>
          ELSE <<RRead("C07.a", E1, 2)>>)
+     \o <<RRead("C07.a", Plus(Times(X(1), TT), Times(CI(3), T0)), 2)>>      \* horizon symbols inside a refined sample
 
 MkDeclS(s) ==
   LET N == s.N
@@ -357,7 +359,7 @@ Space ==
               /\ (s.rhs = "RB" <=> s.cons = <<"kM", "k1">>) /\ (s.rhs = "R4" <=> s.cons = <<"kMp">>)
               /\ (s.meth # "DC" => \A i \in 1..Len(s.cons) : s.cons[i] \notin {"kR", "kS"})}
     [] Family = "C05" ->
-         {s \in [rhs : {"R1", "R3", "R4", "R7"}, meth : {"MS", "SS"}, intg : {"rk", "expl_euler"}, N : 1..MaxN, M : 1..MaxM,
+         {s \in [rhs : {"R1", "R3", "R4", "R7", "RA"}, meth : {"MS", "SS"}, intg : {"rk", "expl_euler"}, N : 1..MaxN, M : 1..MaxM,
                  grid : {"uni", "geo"}, hz : {"num", "fb"},
                  seed : {Seed}, cons : {<<>>}, obj : ObjSets] : Wellformed(s)}
 
